@@ -111,7 +111,7 @@ def _ok_stmt(rng, env, stats):
             return "puts(%s);" % _iexpr(rng, env), []
         v = rng.choice(cands)
         envx = dict((n, kk) for n, kk in env.items() if n != v)
-        return "if %s { let %s = %s; puts(%s); } else { puts(0); };" % (rng.choice(["true", "1 < 2", _bexpr(rng, envx)]), v, _iexpr(rng, envx, 1), v), []
+        return "if %s { let %s = %s; puts(%s); } else { puts(0); };" % (rng.choice(["true", "1 < 2", "2 != 3"]), v, _iexpr(rng, envx, 1), v), []   # always taken: a skipped block-let would leak an unset binding
     # function literals that are not the direct value of a `let`: stored in arrays / maps, chosen by an
     # if-expression, or assigned to an existing name (their bodies refer to constants of this line)
     if k in ("fnarr", "fnmap", "fnif", "fnassign"):
@@ -316,9 +316,8 @@ def generate(rng, tier, idx):
             ln["text"] = text[:p] + " // note" + "\n" + text[p + 1:]
         elif rng.chance(5):
             # a string literal that spans the continuation (it then contains the newline)
-            v = rng.choice(VARS)
-            ln["text"] = text + ' let %s = "ab\ncd"; puts(%s);' % (v, v)
-            env[v] = "str"
+            # (a dedicated name, placed first, so that it can not collide with the statements of the line)
+            ln["text"] = 'let sx = "ab\ncd"; puts(sx); ' + text
         lines.append(ln)
     if rng.chance(50) or long_session:
         lines.append({"kind": "probe", "text": _probe_line(env), "cut": None})
